@@ -1124,10 +1124,49 @@ func errorLeaks(b, pred *ssa.BasicBlock, err ssa.Value) bool {
 	return dfs(b, pred, map[ssa.Value]bool{err: true}, 0)
 }
 
-// iterationSkips reports whether, starting right after instruction from (the load of a loop
-// element), control can leave the iteration — reach a block that strictly dominates from's
-// block, or a return — without executing must.
+// iterationSkips reports whether an iteration of the innermost loop around must can complete (reach a
+// back edge of that loop) without executing must. The loop is found from the CFG (a header that
+// dominates must's block and has a predecessor it dominates), so a condition that encloses must together
+// with the computation of its operands is seen. Without a loop around must, the older notion is used:
+// from `from`, control can reach a dominating block or a return without executing must.
 func iterationSkips(fn *ssa.Function, from, must ssa.Instruction) (bool, string) {
+	mb := must.Block()
+	var header *ssa.BasicBlock
+	for _, h := range fn.Blocks {
+		if !h.Dominates(mb) {
+			continue
+		}
+		hasBack := false
+		for _, p := range h.Preds {
+			if h.Dominates(p) {
+				hasBack = true
+			}
+		}
+		if !hasBack {
+			continue
+		}
+		if header == nil || header.Dominates(h) {
+			header = h // innermost: the deepest such header
+		}
+	}
+	if header != nil {
+		latch := func(in ssa.Instruction) bool {
+			b := in.Block()
+			if len(b.Instrs) == 0 || b.Instrs[len(b.Instrs)-1] != in {
+				return false
+			}
+			for _, sc := range b.Succs {
+				if sc == header && header.Dominates(b) {
+					return true
+				}
+			}
+			return false
+		}
+		if in, path := (Query{Fn: fn, Avoid: isInstr(must)}).Reach(header, 0, latch); in != nil {
+			return true, blockPath(path)
+		}
+		return false, ""
+	}
 	fb := from.Block()
 	target := func(in ssa.Instruction) bool {
 		if _, isRet := in.(*ssa.Return); isRet {
